@@ -536,3 +536,30 @@ Proof.
   apply map_ext_in. intros u Hu. rewrite Forall_forall in Hw.
   apply index_checked_exact; auto.
 Qed.
+
+(* ---- nested for-equations ------------------------------------------------------------------- *)
+Lemma nested_checked_exact c n oa ob u shadow :
+  chk_slice c = true -> chk_loop c = true -> empty_ok c = true -> wf c u -> 0 <= n ->
+  index_nested c n oa ob u shadow = modelica_nested n oa ob u.
+Proof.
+  intros Hs Hl He Hw Hn. unfold index_nested, modelica_nested.
+  rewrite (index_checked_exact c n u Hs Hl He Hw Hn). reflexivity.
+Qed.
+
+Lemma nested_rejected c n oa ob u shadow :
+  chk_slice c = true -> chk_loop c = true -> empty_ok c = true -> wf c u -> 0 <= n ->
+  modelica n u = ErrV -> index_nested c n oa ob u shadow = ErrV.
+Proof.
+  intros Hs Hl He Hw Hn H. rewrite (nested_checked_exact c n oa ob u shadow Hs Hl He Hw Hn).
+  unfold modelica_nested. rewrite H. reflexivity.
+Qed.
+
+Lemma nested_accepted c n oa ob u shadow l :
+  chk_slice c = true -> chk_loop c = true -> empty_ok c = true -> wf c u -> 0 <= n ->
+  index_nested c n oa ob u shadow = Ok l ->
+  exists l0, modelica n u = Ok l0 /\ l = repeat_app (outer_count oa ob) l0.
+Proof.
+  intros Hs Hl He Hw Hn H. rewrite (nested_checked_exact c n oa ob u shadow Hs Hl He Hw Hn) in H.
+  unfold modelica_nested in H. destruct (modelica n u) as [l0| |]; try discriminate.
+  cbn [rmap] in H. injection H as <-. exists l0. split; reflexivity.
+Qed.
